@@ -98,31 +98,51 @@ def Cur.expect (c : Cur) (ty tag : Nat) : Res RawItem :=
     else if it.ty ≠ ty then .err .typeMismatch
     else .ok it
 
-/-- a fixed-width getter: assert, check the length, convert, advance. -/
-def Cur.fixed (c : Cur) (ty tag width : Nat) (conv : Bytes → α) : Res (α × Cur) := do
+/-! Go primitives that panic on short input — the model keeps the panic visible so that
+    "the decoder never panics" is a theorem about the guards, not an artefact of totalised functions. -/
+
+/-- `binary.BigEndian.Uint32(v)`: panics when `len(v) < 4`. -/
+def goU32 (v : Bytes) : Res Nat :=
+  if v.length < 4 then .panic "index out of range [3]" else .ok (beVal (v.take 4))
+/-- `binary.BigEndian.Uint64(v)`: panics when `len(v) < 8`. -/
+def goU64 (v : Bytes) : Res Nat :=
+  if v.length < 8 then .panic "index out of range [7]" else .ok (beVal (v.take 8))
+/-- `v[i]`. -/
+def goIndex (v : Bytes) (i : Nat) : Res UInt8 :=
+  match v[i]? with
+  | some b => .ok b
+  | none => .panic "index out of range"
+/-- `bytesToBigInt(v)` reads `v[0]` first. -/
+def goBytesToBigInt (v : Bytes) : Res Int :=
+  if v.isEmpty then .panic "index out of range [0] with length 0" else .ok (bytesToBigInt v)
+
+/-- a fixed-width getter: assertType, assertLen, convert, advance. -/
+def Cur.fixed (c : Cur) (ty tag width : Nat) (conv : Bytes → Res α) : Res (α × Cur) := do
   let it ← c.expect ty tag
   if it.val.length ≠ width then .err .badLength else
+  let v ← conv it.val
   let c' ← c.next
-  pure (conv it.val, c')
+  pure (v, c')
 
 def Cur.integer (c : Cur) (tag : Nat) : Res (Int × Cur) :=
-  c.fixed 2 tag 4 fun v => signedOfNat 32 (beVal v)
+  c.fixed 2 tag 4 fun v => do pure (signedOfNat 32 (← goU32 v))
 def Cur.longInteger (c : Cur) (tag : Nat) : Res (Int × Cur) :=
-  c.fixed 3 tag 8 fun v => signedOfNat 64 (beVal v)
+  c.fixed 3 tag 8 fun v => do pure (signedOfNat 64 (← goU64 v))
 def Cur.enum (c : Cur) (tag : Nat) : Res (Nat × Cur) :=
-  c.fixed 5 tag 4 beVal
+  c.fixed 5 tag 4 goU32
 def Cur.bool (c : Cur) (tag : Nat) : Res (Bool × Cur) :=
-  c.fixed 6 tag 8 fun v => v.getD 7 0 != 0
+  c.fixed 6 tag 8 fun v => do pure ((← goIndex v 7) != 0)
 def Cur.dateTime (c : Cur) (tag : Nat) : Res (Int × Cur) :=
-  c.fixed 9 tag 8 fun v => signedOfNat 64 (beVal v)
+  c.fixed 9 tag 8 fun v => do pure (signedOfNat 64 (← goU64 v))
 def Cur.interval (c : Cur) (tag : Nat) : Res (Nat × Cur) :=
-  c.fixed 10 tag 4 beVal
+  c.fixed 10 tag 4 goU32
 
 def Cur.bigInteger (c : Cur) (tag : Nat) : Res (Int × Cur) := do
   let it ← c.expect 4 tag
   if it.val.isEmpty then .err .badLength else
+  let v ← goBytesToBigInt it.val
   let c' ← c.next
-  pure (bytesToBigInt it.val, c')
+  pure (v, c')
 
 def Cur.textString (c : Cur) (tag : Nat) : Res (Bytes × Cur) := do
   let it ← c.expect 7 tag
